@@ -96,6 +96,9 @@ mod listener_select;
 mod negotiated;
 mod protocol;
 
+#[cfg(libp2p_verif)]
+pub use self::protocol::verif_c15;
+
 pub use self::{
     dialer_select::{DialerSelectFuture, dialer_select_proto},
     listener_select::{ListenerSelectFuture, listener_select_proto},
